@@ -38,6 +38,23 @@ def gen_table(rd, name: str, n_rows: Optional[int] = None, shape: Optional[int] 
     return {"name": name, "cols": cols}
 
 
+def gen_twin_table(rd, base, name: str) -> Dict[str, Any]:
+    """a table keyed on the same ids as `base` (same columns, other values and nulls, rows in another order):
+    one-to-one joins, where the coalescing of common non-key columns does real work"""
+    n = table_nrows(base)
+    perm = list(range(n))
+    rd.shuffle(perm)
+    cols = []
+    for c in base["cols"]:
+        vals = [c["values"][i] for i in perm]
+        if c["kind"] == "float":
+            vals = [None if rd.random() < 0.3 else rd.randrange(-8, 41) / 4.0 for _ in range(n)]
+        elif c["kind"] == "int":
+            vals = [None if rd.random() < 0.3 else rd.randrange(-5, 21) for _ in range(n)]
+        cols.append({"name": c["name"], "kind": c["kind"], "values": vals})
+    return {"name": name, "cols": cols}
+
+
 def table_columns(t) -> Dict[str, str]:
     return {c["name"]: c["kind"] for c in t["cols"]}
 
@@ -363,6 +380,9 @@ def gen_steps(r, cols: Dict[str, str], tables: Dict[str, Dict[str, str]], max_st
             if not on_c:
                 continue
             on = sorted(r.sample(on_c, r.choice([1, 1, 2]) if len(on_c) > 1 else 1))
+            key_on = [c for c in on_c if cols[c] == "key"]
+            if key_on and r.random() < 0.4:
+                on = [key_on[0]]  # one-to-one join on the unique key: every other common column is coalesced
             # common non-key columns are coalesced: require same kind
             bad = [c for c in rcols if c in cols and c not in on and not (cols[c] == rcols[c] or (cols[c] in NUMERIC and rcols[c] in NUMERIC))]
             if bad:
@@ -420,9 +440,13 @@ def gen_steps(r, cols: Dict[str, str], tables: Dict[str, Dict[str, str]], max_st
             idc = r.choice([None, None, "src"])
             if idc in cols:
                 idc = None
-            steps.append({"t": "select_columns", "cols": common})
-            steps.append({"t": "concat_rows", "b": {"src": tn, "steps": [{"t": "select_columns", "cols": common}]},
-                          "id_column": idc})
+            if len(common) < len(names):
+                steps.append({"t": "select_columns", "cols": common})
+            # when the other table has exactly these columns it enters the concat as a bare table leaf
+            bsteps = [] if sorted(rcols0) == sorted(common) else [{"t": "select_columns", "cols": common}]
+            if r.random() < 0.25:
+                bsteps = bsteps + [{"t": "select_rows", "expr": "id < 0"}]  # a side that evaluates to no rows
+            steps.append({"t": "concat_rows", "b": {"src": tn, "steps": bsteps}, "id_column": idc})
             cols = {c: ("int" if cols[c] == "key" else cols[c]) for c in common}
             if idc:
                 cols[idc] = "str"
